@@ -342,7 +342,7 @@ func Y(site int) {
 	if g.node != nil && g.node.dead {
 		k.mu.Unlock()
 		raceEnable()
-		runtime.Goexit()
+		hangForever()
 	}
 	if g.held > 0 || g.driver || k.stopped {
 		k.mu.Unlock()
@@ -582,7 +582,7 @@ func (k *Kernel) exitNode(code int, msg string) {
 	k.logLocked("X", int64(code), 0, name)
 	k.leave()
 	k.poke()
-	runtime.Goexit()
+	hangForever()
 }
 
 // checkDead terminates the calling goroutine if its node has exited.
@@ -598,4 +598,13 @@ func appendStr(b []byte, s string) []byte {
 		b = append(b, s[i])
 	}
 	return b
+}
+
+// hangForever stops a goroutine of a node that has exited, the way a dead
+// process stops: nothing more runs in it, in particular no deferred functions
+// (runtime.Goexit would run them, which the real exit never does).
+//
+//go:norace
+func hangForever() {
+	select {}
 }
